@@ -149,7 +149,7 @@ impl Prop for C02 {
         // stale statistics: gathered on a dataset that had extra quads and lacked some of the current ones
         let stale = { let mut tmp = db.clone(); tmp.cached_stats = None; for (s, p, o) in &c.stale_extra { tmp.add_triple_parts(s, p, o); } let all = tmp.dataset_index.all_quads(); for q in all.iter().take(c.stale_missing) { tmp.dataset_index.delete_quad(q); } tmp.get_or_build_stats() };
         let adversarial = |seed: u64, db: &SparqlDatabase| -> Arc<DatabaseStats> { let mut r = Rng::new(seed); let mut st = DatabaseStats::new(); st.total_triples = *r.pick(&[0u64, 1, 1_000_000_000_000]); let n = db.dictionary.read().unwrap().next_id; for id in 0..n { st.predicate_cardinalities.insert(id, r.below(3) * 1_000_000_000); st.predicate_distinct_subjects.insert(id, r.below(2)); st.predicate_distinct_objects.insert(id, r.below(3) * 1_000_000); st.subject_cardinalities.insert(id, r.below(1_000_000)); st.object_cardinalities.insert(id, 0); } st.distinct_subjects = r.below(2); st.distinct_objects = u64::MAX / 4; Arc::new(st) };
-        let raw_before: std::collections::BTreeSet<Quad> = db.dataset_index.all_quads().into_iter().collect();
+        let raw_before: (std::collections::BTreeSet<Quad>, Vec<GraphId>) = (db.dataset_index.all_quads().into_iter().collect(), db.dataset_index.named_graphs());
         // ---- baseline: text as generated, fresh statistics, the optimizer's own plan, pool of one
         let q0 = render(&c.query, 0);
         rayon::sim_configure(0, 1);
@@ -215,8 +215,8 @@ impl Prop for C02 {
                     }
                 }
             }
-            let after: std::collections::BTreeSet<Quad> = db.dataset_index.all_quads().into_iter().collect();
-            if after != raw_before { return Some(Violation::new("query-modified-data", format!("executing {:?} changed the dataset", text))); }
+            let after: (std::collections::BTreeSet<Quad>, Vec<GraphId>) = (db.dataset_index.all_quads().into_iter().collect(), db.dataset_index.named_graphs());
+            if after != raw_before { return Some(Violation::new("query-modified-data", format!("executing {:?} changed the stored quads or the graph catalog", text))); }
         }
         for (k, n) in kinds { ctx.count(k, n); }
         if base.len() > 64 { ctx.hit("probe.intermediate_result_over_64_rows"); }
